@@ -173,7 +173,7 @@ uint64_t rot_left(uint64_t size, uint64_t a, uint64_t b)
 {
     uint64_t tmp;
 
-    b = b & 0x3F;
+    /* The count is taken modulo the size (9, 17, 33 do not divide 64) */
     b %= size;
     switch(size){
 	    case 8:
@@ -211,7 +211,7 @@ uint64_t rot_right(uint64_t size, uint64_t a, uint64_t b)
 {
     uint64_t tmp;
 
-    b = b & 0x3F;
+    /* The count is taken modulo the size (9, 17, 33 do not divide 64) */
     b %= size;
     switch(size){
 	    case 8:
